@@ -85,7 +85,8 @@ def field_sort(cls, a):
     key = (cls.__name__, a.name)
     for k in type.mro(cls):
         if (k.__name__, a.name) in HINTS:
-            return HINTS[(k.__name__, a.name)]
+            h = HINTS[(k.__name__, a.name)]
+            return h(cls) if callable(h) else h
     if a.converter is not None:
         c = a.converter
         if isinstance(c, type) and issubclass(c, ArrayBase):
@@ -159,6 +160,8 @@ def make(P, sort, name, depth):
         return sym_object(P, sort[1], name, depth + 1)
     if k == 'const':
         return sort[1]
+    if k == 'oneof':
+        return make_one_of(P, list(sort[1]), name, depth + 1)
     if k == 'external':
         return SAbs('external:%s' % sort[1].__name__, V.fresh_int(name), sort[1])
     raise E.Unsupported('sort %r' % (sort,))
